@@ -216,8 +216,9 @@ class SymCountdown:
 
     created = 0
 
-    def __init__(self, *a, **k):
+    def __init__(self, *a, interval=1, **k):
         self.start = Clock.now
+        self.interval = interval
         SymCountdown.created += 1
 
     @classmethod
@@ -229,7 +230,7 @@ class SymCountdown:
         return cls()
 
     def timed_out(self):
-        return bool(Clock.now - self.start >= 1)
+        return bool(Clock.now - self.start >= self.interval)
 
     def busy(self):
         return not self.timed_out()
@@ -241,22 +242,29 @@ class SymCountdown:
         self.start = Clock.now
 
     def time_out(self):
-        self.start = Clock.now - 1
+        self.start = Clock.now - self.interval
 
     def __deepcopy__(self, memo):
         c = SymCountdown.__new__(SymCountdown)
         c.start = self.start
+        c.interval = self.interval
         return c
 
 
 class TimerProv(CheckTimerProvider):
+    """check timers; `intervals` may give the sending and the receiving role different intervals (in clock units)"""
+
     def __init__(self, mode):
         self.mode = mode
+        self.intervals = {}
+        self.asked = []
 
     def provide_check_timer(self, local_entity_id, remote_entity_id, entity_type):
+        self.asked.append(entity_type)
+        iv = self.intervals.get(entity_type, 1)
         if self.mode == "sym":
-            return SymCountdown()
-        return RealCountdown.from_seconds(1.0)
+            return SymCountdown(interval=iv)
+        return RealCountdown.from_seconds(float(iv))
 
 
 _shim_state = {"mode": None}
@@ -984,7 +992,18 @@ class World:
     def wire(self, pdu):
         """what a serialising link does to a PDU"""
         if self.sym and _has_symbolic(pdu):
-            return copy.deepcopy(pdu)
+            back = copy.deepcopy(pdu)
+            # the numeric fields stay symbolic, but TLV options are concrete: they arrive as the parser
+            # delivers them (generic CfdpTlv objects, not the typed TLV classes the sender used)
+            opts = getattr(back, "_options", None)
+            if opts and not _has_symbolic(opts):
+                from spacepackets.cfdp.tlv import CfdpTlv
+                try:
+                    back._options = [CfdpTlv.unpack(bytes(o.pack())) for o in opts]
+                except Exception as e:  # noqa: BLE001
+                    self.wire_anomalies.append(f"options of {type(pdu).__name__}: {type(e).__name__}: {e}")
+                    back._options = copy.deepcopy(opts)
+            return back
         # no symbolic field (ACK, Finished, Prompt, concrete NAK ...): real serialisation in both modes,
         # so that what the parser makes of a field (plain int instead of an enum member, ...) is seen
         try:
